@@ -499,13 +499,30 @@ func init() {
 			big := func(r string) string {
 				var sb strings.Builder
 				sb.WriteString("- " + r + "\n")
-				for i := 0; i < 150; i++ {
-					fmt.Fprintf(&sb, "  - %s-child-%03d-xxxxxxxxxxxxxxxx\n", r, i)
+				for i := 0; i < 48; i++ {
+					// 48 rows of ~100 bytes: about 4.9 KB per root, more than one 4096-byte buffer
+					fmt.Fprintf(&sb, "  - %s-child-%03d-%s\n", r, i, strings.Repeat("x", 80))
 				}
 				return sb.String()
 			}
-			d := docT{"big-roots", []string{big("alpha"), big("beta")}, []int{151, 151}, ""}
+			d := docT{"big-roots", []string{big("alpha"), big("beta")}, []int{49, 49}, ""}
 			add(d, "out-text", 1, w2, nil)
+			add(d, "out-dry", 1, w2, nil)
+		}
+		// parents with many children (collection-size thresholds: 8, 10, 16) in two roots that differ in name and depth:
+		// anything remembered about "the current parent" and shared between workers shows here
+		{
+			var a, b strings.Builder
+			a.WriteString("- wa\n")
+			b.WriteString("- wb\n  - mid\n")
+			for i := 0; i < 17; i++ {
+				fmt.Fprintf(&a, "  - a%02d\n", i)
+				fmt.Fprintf(&b, "    - b%02d\n", i)
+			}
+			d := docT{"wide-roots", []string{a.String(), b.String()}, []int{18, 19}, ""}
+			for _, op := range []string{"out-text", "walk", "out-dry", "mkdir", "out-json"} {
+				add(d, op, 1, w2, nil)
+			}
 		}
 		// custom branch strings (equal and unequal widths, empty connector) together with the massive option
 		for fi, fm := range []model.Fmt4{
